@@ -59,7 +59,10 @@ func GenInit(r *hx.Rand, u *Universe) *InitSpec {
 		ks[nk-1] = ks[0]
 	}
 	in := &InitSpec{Chain: chainIDs[r.Intn(len(chainIDs))], Keypers: ks, Threshold: uint64(1 + r.Intn(nk)),
-		InitialEon: uint64(r.Intn(3)) * 7, ForkOn: r.Chance(60), ForkHeight: int64(r.Intn(6)), DevMode: r.Chance(10)}
+		InitialEon: uint64(r.Intn(3)) * 7, ForkOn: r.Chance(60), ForkHeight: int64(r.Intn(6)), ForkLegacy: r.Chance(30), DevMode: r.Chance(10)}
+	if in.ForkLegacy && !in.ForkOn {
+		in.ForkHeight = 0 // the older form has no height when the fork is off
+	}
 	nv := 1 + r.Intn(3)
 	for i := 0; i < nv; i++ {
 		in.Validators = append(in.Validators, ValPower{Key: valKey(100 + i), Power: int64(1 + r.Intn(20))})
